@@ -618,7 +618,7 @@ pub fn gen_c04(seed: u64, thorough: bool, _only: Option<u64>, out: &mut Out) {
 }
 
 pub fn gen_c05(seed: u64, thorough: bool, only: Option<u64>, out: &mut Out) {
-  let groups: u64 = if thorough { 120 } else { 10 };
+  let groups: u64 = if thorough { 40 } else { 10 };
   for gi in 0..groups {
     if only.map_or(false, |o| o != gi) {
       continue;
